@@ -57,6 +57,41 @@ Mutate(g, g2, c) ==
     [] c = "otherSourceNode" -> [g EXCEPT !.nonceNode = 300]                          \* right key, another source identity
     [] c = "replay"       -> g
 
+(* ---- group sessions (C03 over group keys): the header carries the source node id and the destination group id;    *)
+(* the receiver finds the operational key through (group session id, destination group id), decrypts with the       *)
+(* source node id of the header in the nonce and the complete header - source and destination included - as         *)
+(* associated data; a delivered message is attributed to the source node of its header.                            *)
+GKey == <<"k", "group">>
+Groups == {1, 2}                                 \* both mapped to the same key set at the receiver
+GGenuine(src, c, len) ==
+  LET h == [sess |-> 77, enc |-> TRUE, ctr |-> c, to |-> "B", src |-> src, dst |-> 1] IN
+  [hdr |-> h, aad |-> h, key |-> GKey, nonceNode |-> src, tagOk |-> TRUE, len |-> len]
+GAccept(d, seen) ==
+  /\ d.hdr.to = "B" /\ d.hdr.enc /\ d.hdr.sess = 77 /\ d.hdr.dst \in Groups
+  /\ d.key = GKey /\ d.nonceNode = d.hdr.src /\ d.aad = d.hdr /\ d.tagOk
+  /\ <<d.hdr.src, d.hdr.ctr>> \notin seen
+GClasses == {"genuine", "bitHdrFlags", "bitSessId", "bitSecFlags", "bitCounter", "bitCipher", "bitTag", "truncate", "extend",
+             "transplantHeader", "bitSrcNode", "bitDstGroup", "transplantGroup", "otherSourceNode", "replay", "secondSender"}
+GMutate(g, g2, c) ==
+  CASE c \in {"genuine", "replay"} -> g
+    [] c = "bitHdrFlags"  -> [g EXCEPT !.hdr = [@ EXCEPT !.to = "nobody"]]
+    [] c = "bitSessId"    -> [g EXCEPT !.hdr.sess = @ + 64]
+    [] c = "bitSecFlags"  -> [g EXCEPT !.hdr.enc = FALSE]
+    [] c = "bitCounter"   -> [g EXCEPT !.hdr.ctr = @ + 1]
+    [] c \in {"bitCipher", "bitTag", "truncate", "extend"} -> [g EXCEPT !.tagOk = FALSE]
+    [] c = "transplantHeader" -> [g EXCEPT !.hdr = g2.hdr]
+    [] c = "bitSrcNode"   -> [g EXCEPT !.hdr.src = @ + 1]                       \* header names another source, body untouched
+    [] c = "bitDstGroup"  -> [g EXCEPT !.hdr.dst = 3]                           \* a group the receiver does not know
+    [] c = "transplantGroup" -> [g EXCEPT !.hdr.dst = 2]                        \* another group the receiver does know
+    [] c = "otherSourceNode" -> [g EXCEPT !.nonceNode = 300]                    \* protected under another source identity
+    [] c = "secondSender" -> GGenuine(101, 9, g.len)                            \* a genuine datagram of another member, while the first sender's session is live
+GCase(shape, len, c) ==
+  LET g == GGenuine(NodeA, 5, len) g2 == GGenuine(NodeA, 6, len)
+      d == GMutate(g, g2, c)
+      seen == IF c = "replay" THEN {<<NodeA, 5>>} ELSE {}
+  IN [mode |-> "group", shape |-> shape, len |-> len, cls |-> c, authentic |-> ((d = g /\ c # "replay") \/ c = "secondSender"),
+      deliver |-> GAccept(d, seen), from |-> d.hdr.src]
+
 VARIABLES case, n
 Modes == {"case", "pase"}
 Shapes == {"unreliable", "reliable"}
@@ -67,8 +102,10 @@ Case(mode, shape, len, c) ==
       rcv == IF c = "reflect" THEN "A" ELSE "B"
       seen == IF c = "replay" THEN {<<1, 5>>} ELSE {}
   IN [mode |-> mode, shape |-> shape, len |-> len, cls |-> c, authentic |-> (d = g /\ c # "replay"),
-      deliver |-> Accept(d, rcv, seen)]
-Init == n = 0 /\ \E mode \in Modes, shape \in Shapes, len \in Lens, c \in Classes : case = Case(mode, shape, len, c)
+      deliver |-> Accept(d, rcv, seen), from |-> IF mode = "pase" THEN 0 ELSE NodeA]
+Init == /\ n = 0
+        /\ \/ \E mode \in Modes, shape \in Shapes, len \in Lens, c \in Classes : case = Case(mode, shape, len, c)
+           \/ \E len \in {1, 16, 900}, c \in GClasses : case = GCase("unreliable", len, c)
 Next == n = 0 /\ n' = 1 /\ UNCHANGED case
 Spec == Init /\ [][Next]_<<case, n>>
 Emit == PrintT(<<"REPLAY", ToJson(case)>>)
